@@ -40,7 +40,13 @@ def setter_effects(crate, prefix=BUILDER + "::"):
     if key in _setter_cache:
         return _setter_cache[key]
     out = {}
-    m = ccp.Machine([crate])
+    files = {b.file for b in crate.bodies if b.path.startswith(prefix)}
+
+    def inl(n):
+        # private helpers of the builder's module are part of a setter's body (e.g. `configure(|config| ..)`)
+        x = crate.body(n)
+        return x is not None and not x.is_pub and x.file in files and x.kind in ("fn", "assoc_fn") and not x.impl_trait and not x.derived
+    m = ccp.Machine([crate], inline=inl)
     for b in crate.bodies:
         if b.kind != "assoc_fn" or not b.path.startswith(prefix) or b.impl_trait:
             continue
@@ -227,7 +233,9 @@ def predicate_table(ctx, crate, pred_path, rid):
     main = [l for l in leaves if l.kind == "return" and isinstance(l.value, ccp.Call) and l.value.callee.endswith("::any")]
     rest = [l for l in leaves if l not in main]
     if len(main) != 1:
-        ctx.violation(rid, (pred_path, "return"), "predicate does not reduce to one Iterator::any(..) over its ranges: %s" % [ccp.show(l.value)[:80] for l in leaves], b.loc())
+        if any("binary_search" in a for l in leaves for a, _ in l.label):
+            return _binary_search_predicate(ctx, crate, pred_path, rid, b, c, leaves)
+        ctx.undecided(rid, pred_path, "the predicate is neither any(range.contains(c)) over its ranges nor a binary search over them: %s" % [ccp.show(l.value)[:80] for l in leaves], b.loc())
         return None
     ml = main[0]
     anyv = ml.value
@@ -287,6 +295,101 @@ def predicate_table(ctx, crate, pred_path, rid):
         if not (l.kind == "return" and isinstance(l.value, ccp.Const) and l.value.v is False):
             ctx.undecided(rid, pred_path, "a path returns %s" % ccp.show(l.value)[:100], b.loc())
             return None
+    return _static_table(ctx, crate, pred_path, static_path, rid, b, {"idiom": "any(range.contains(c))"})
+
+
+def _binary_search_predicate(ctx, crate, pred_path, rid, b, c, leaves):
+    """membership by binary search over the rows' lower bounds: decided by case split over the finite result domain Ok(j) / Err(i), i = 0..=rows"""
+    inl = lambda n: crate.body(n) is not None and "__st" not in n and " as std::ops::Deref>" not in n and " as lazy_static::" not in n
+    # the search call, its slice, key and key function
+    calls = []
+    for l in leaves:
+        for e in l.events:
+            if e["k"] == "call" and re.search(r"<impl \[T\]>::binary_search_by_key$", e["callee"]):
+                calls.append(e)
+    if not calls:
+        ctx.undecided(rid, pred_path, "binary search by a comparator closure is not modelled", b.loc())
+        return None
+    e = calls[0]
+    statics = set(re.findall(r"static ([\w:]+)", ccp.show(e["args"][0])))
+    if len(statics) != 1 or ccp.strip_ref(e["args"][1]).key() != c.key():
+        ctx.undecided(rid, pred_path, "binary search is not over one static range list with the predicate's own parameter as key", b.loc())
+        return None
+    static_path = list(statics)[0]
+    clo = e["args"][2]
+    keyfn_ok = False
+    if isinstance(clo, ccp.Agg) and clo.kind == "closure" and crate.body(clo.label) is not None:
+        r = local.peel(local.Defs(crate.body(clo.label)).local(0))
+        if r[0] == "field" and r[1] == "low" and any(x == ("param", 2) for x in local.walk(r)):
+            keyfn_ok = True
+    if not keyfn_ok:
+        ctx.violation(rid, (pred_path, "search key"), "the rows are searched by something other than their lower bound", b.loc())
+        return None
+    # number of rows: through the initialiser to the table constant
+    inits = [x for x in crate.bodies if x.path.startswith("<%s as std::ops::Deref>::deref::" % static_path)
+             and x.arg_count == 0 and x.sig_output and x.sig_output.startswith("std::vec::Vec")]
+    rows = None
+    if len(inits) == 1:
+        r = local.Defs(inits[0]).local(0)
+        arg = local.peel(r[2][0]) if r[0] == "call" and r[2] else None
+        if arg and arg[0] == "namedconst":
+            tab = const_table(crate, arg[1])
+            rows = tab
+    if not rows:
+        ctx.undecided(rid, pred_path, "cannot resolve the table behind %s" % static_path, b.loc())
+        return None
+    n = len(rows)
+    if any(rows[i][0] >= rows[i + 1][0] for i in range(n - 1)):
+        ctx.violation(rid, (pred_path, "unsorted table"), "binary search over rows that are not strictly ascending by lower bound", b.loc())
+        return None
+
+    def run(result):
+        def on_call(m, st, name, args, t):
+            if name.endswith("binary_search_by_key"):
+                return result
+            if name.endswith("<impl [T]>::len") or name.endswith("Vec::<T, A>::len"):
+                return ccp.Const(n)
+            return None
+        return [l for l in ccp.Machine([crate], inline=inl, max_depth=4, on_call=on_call).run(b, [c])]
+
+    def cpv(x):
+        return ord(x) if isinstance(x, str) else int(x)
+
+    def fmt(cp):
+        return "U+%04X" % cpv(cp)
+    for l in run(ccp.Agg("adt", "std::result::Result::Ok", 0, [ccp.Const(0)])):
+        if not (l.kind == "return" and isinstance(l.value, ccp.Const) and l.value.v is True):
+            ctx.violation(rid, (pred_path, "exact hit"), "a code point equal to a row's lower bound is not reported as member (%s)" % ccp.show(l.value)[:60], b.loc())
+            return None
+    for i in range(0, n + 1):
+        ls = run(ccp.Agg("adt", "std::result::Result::Err", 1, [ccp.Const(i)]))
+        if len(ls) != 1:
+            ctx.undecided(rid, pred_path, "the search result Err(%d) does not determine one path (%d paths: %s)" % (i, len(ls), [(a[:60], v) for a, v in ls[0].label][:2] if ls else ""), b.loc())
+            return None
+        l = ls[0]
+        v = l.value
+        if i == 0:
+            good = l.kind == "return" and isinstance(v, ccp.Const) and v.v is False
+            bad_msg = "for a code point below the first row (%s) the predicate %s" % (fmt(rows[0][0]), "panics" if l.kind == "panic" else "returns " + ccp.show(v)[:80])
+        else:
+            txt = ccp.show(v) if v is not None else ""
+            good = l.kind == "return" and (re.fullmatch(r"Le\(c, .*\.\[%d\]\.high\)" % (i - 1), txt) is not None or re.fullmatch(r"Ge\(.*\.\[%d\]\.high, c\)" % (i - 1), txt) is not None
+                                           or re.fullmatch(r"unic_char_range::CharRange::contains\(.*\.\[%d\], c\)" % (i - 1), txt) is not None)
+            lo, hi = rows[i - 1]
+            if l.kind == "return" and isinstance(v, ccp.Const) and v.v is False and cpv(hi) == cpv(lo):
+                good = True     # nothing lies between this row's only element and the next row
+            if l.kind == "return" and isinstance(v, ccp.Const) and v.v is True and i < n and cpv(hi) == cpv(rows[i][0]) - 1:
+                good = True
+            bad_msg = "for a code point after the lower bound of row %d of %d (%s..=%s) the predicate %s instead of comparing it with that row's upper bound: %s are misclassified" % (
+                i, n, fmt(lo), fmt(hi), "panics" if l.kind == "panic" else "returns " + txt[:70],
+                ("%s..=%s" % (fmt(cpv(lo) + 1), fmt(hi))) if cpv(hi) > cpv(lo) else "no code points (single-element row), but the row is still skipped")
+        if not good:
+            ctx.violation(rid, (pred_path, "binary search, result Err(%d)" % i), bad_msg, b.loc())
+            return None
+    return _static_table(ctx, crate, pred_path, static_path, rid, b, {"idiom": "binary search by lower bound, %d result cases decided" % (n + 2)})
+
+
+def _static_table(ctx, crate, pred_path, static_path, rid, b, how):
     # initialiser: fn under the static's Deref impl that calls convert(table)
     inits = [x for x in crate.bodies if x.path.startswith("<%s as std::ops::Deref>::deref::" % static_path)
              and x.arg_count == 0 and x.sig_output and x.sig_output.startswith("std::vec::Vec")]
@@ -305,7 +408,7 @@ def predicate_table(ctx, crate, pred_path, rid):
         return None
     if not check_range_converter(ctx, crate, conv, rid):
         return None
-    ctx.ok(rid, pred_path, {"static": static_path, "table": arg[1], "converter": conv.path}, b.loc())
+    ctx.ok(rid, pred_path, dict({"static": static_path, "table": arg[1], "converter": conv.path}, **how), b.loc())
     return arg[1]
 
 
